@@ -163,6 +163,9 @@ pub fn text(c: &Case) -> String {
         "refvalue" => format!("A ::= INTEGER {k}\nv A ::= {}", c.x.unwrap()),
         "default" => format!("S ::= SEQUENCE {{ f INTEGER {k} DEFAULT {} }}", c.x.unwrap()),
         "refdefault" => format!("A ::= INTEGER {k}\nS ::= SEQUENCE {{ f A DEFAULT {} }}", c.x.unwrap()),
+        // the literal is governed by a constrained reference to A (and one more alias): its form follows A's integer type
+        "subrefvalue" => format!("A ::= INTEGER {k}\nPp ::= A ({x})\nQq ::= Pp\nv Qq ::= {x}", x = c.x.unwrap()),
+        "subrefdefault" => format!("A ::= INTEGER {k}\nPp ::= A ({x})\nS ::= SEQUENCE {{ f Pp DEFAULT {x} }}", x = c.x.unwrap()),
         // the bounds are the actual parameters of a template whose dummy references are spelled like values of the module
         "template-instance" => {
             let (l, h) = (c.ranges[0].0.unwrap(), c.ranges[0].1.unwrap());
@@ -248,7 +251,7 @@ impl Prop for C06 {
         ends_hi.push(None);
         let mut out = vec![];
         let type_ctx = ["assign", "component", "optional", "choice", "nested", "seqof", "setof"];
-        let val_ctx = ["value", "refvalue", "default", "refdefault"];
+        let val_ctx = ["value", "refvalue", "default", "refdefault", "subrefvalue", "subrefdefault"];
         for lo in &ends_lo {
             for hi in &ends_hi {
                 if let (Some(l), Some(h)) = (lo, hi) {
@@ -452,7 +455,7 @@ impl Prop for C06 {
                 }
                 None => discs.push(missing("S.l")),
             },
-            "value" | "refvalue" => {
+            "value" | "refvalue" | "subrefvalue" => {
                 let x = c.x.unwrap();
                 let found = m.items.iter().find_map(|i| match i {
                     Item::Const { name, ty, init } if name == "V" => Some((ty.clone(), init.clone())),
@@ -474,6 +477,12 @@ impl Prop for C06 {
                                     discs.push(Disc::new(key(c, "ref-shape", &ty), format!("expected `V: A = A(..)`, got `{ty} = {init}`\n{src}\n{gen}")));
                                 }
                                 tuple_ty("A")
+                            } else if c.ctx == "subrefvalue" {
+                                let w: Vec<&str> = wrappers.iter().map(|s| s.as_str()).filter(|s| *s != "Integer::from").collect();
+                                if ty != "Qq" || w != ["Qq", "Pp", "A"] {
+                                    discs.push(Disc::new(key(c, "ref-shape", &ty), format!("expected `V: Qq = Qq(Pp(A(..)))`, got `{ty} = {init}`\n{src}\n{gen}")));
+                                }
+                                tuple_ty("A")
                             } else {
                                 Some(ty.clone())
                             };
@@ -485,6 +494,11 @@ impl Prop for C06 {
                                     if c.ctx == "value" {
                                         check_type(inner.as_deref().unwrap(), "const V type", &mut discs);
                                     }
+                                    // the literal is written the way its declared type needs it
+                                    let big = inner.as_deref() == Some("Integer");
+                                    if big != wrappers.iter().any(|w| w == "Integer::from") {
+                                        discs.push(Disc::new(key(c, "literal-form", inner.as_deref().unwrap_or("?")), format!("literal written as `{init}` where {inner:?} is declared\n{src}\n{gen}")));
+                                    }
                                 }
                                 None => discs.push(Disc::new(key(c, "unknown-type", &ty), format!("declared type `{ty}`\n{src}\n{gen}"))),
                             }
@@ -492,7 +506,7 @@ impl Prop for C06 {
                     },
                 }
             }
-            "default" | "refdefault" => {
+            "default" | "refdefault" | "subrefdefault" => {
                 let x = c.x.unwrap();
                 match field_ty("S", "f") {
                     Some(t) if c.ctx == "default" => check_type(&t, "S.f", &mut discs),
@@ -502,16 +516,26 @@ impl Prop for C06 {
                 match m.find("s_f_default") {
                     Some(Item::Fn { ret, body, .. }) => match eval_int(body) {
                         None => discs.push(Disc::new(key(c, "literal-unevaluated", ret), format!("default body `{body}`\n{src}\n{gen}"))),
-                        Some((v, _)) => {
+                        Some((v, wrappers)) => {
                             judged.set(true);
                             if v != x {
                                 discs.push(Disc::new(key(c, "literal-value", ret), format!("default literal {v} != source {x}\n{src}\n{gen}")));
                             }
-                            let inner = if c.ctx == "refdefault" { tuple_ty("A") } else { Some(ret.clone()) };
+                            if c.ctx == "subrefdefault" {
+                                let w: Vec<&str> = wrappers.iter().map(|s| s.as_str()).filter(|s| *s != "Integer::from").collect();
+                                if ret != "Pp" || w != ["Pp", "A"] {
+                                    discs.push(Disc::new(key(c, "ref-shape", ret), format!("expected `-> Pp {{ Pp(A(..)) }}`, got `{ret} {{ {body} }}`\n{src}\n{gen}")));
+                                }
+                            }
+                            let inner = if c.ctx != "default" { tuple_ty("A") } else { Some(ret.clone()) };
                             match inner.as_deref().and_then(type_range) {
                                 Some(tr) => {
                                     if !contains(tr, Some(x), Some(x)) {
                                         discs.push(Disc::new(key(c, "literal-does-not-fit", inner.as_deref().unwrap_or("?")), format!("default literal {x} does not fit {inner:?}\n{src}\n{gen}")));
+                                    }
+                                    let big = inner.as_deref() == Some("Integer");
+                                    if big != wrappers.iter().any(|w| w == "Integer::from") {
+                                        discs.push(Disc::new(key(c, "literal-form", inner.as_deref().unwrap_or("?")), format!("default literal written as `{body}` where {inner:?} is declared\n{src}\n{gen}")));
                                     }
                                 }
                                 None => discs.push(Disc::new(key(c, "unknown-type", ret), format!("default fn return type `{ret}`\n{src}\n{gen}"))),
